@@ -177,6 +177,12 @@ def build_cases(ctx, histories, grid, d):
     for lo in range(0, 80, 40):
         add([{"obj": [kind, "d2"], "input": {"family": "bytes", "len": len(litrun), "seed": 0, "bytes": litrun}, "depth": 0 if kind == "fast" else 1,
               "dstLen": dl, "spare": 0} for dl in range(lo, lo + 40) for kind in ("fast", "hc")])
+    # ... and inside the length bytes of the *final* literal run of a block that has a match before it (the "last literals" code
+    # of both compressors is separate from the in-loop literal code)
+    for tailn in (270, 600, 15 + 255 * 3):
+        tailrun = [9] * 40 + [((i * 197 + 11) ^ (i >> 2)) & 255 for i in range(tailn)]
+        add([{"obj": [kind, rnd.choice(["d3", "pool"])], "input": {"family": "bytes", "len": len(tailrun), "seed": 0, "bytes": tailrun},
+              "depth": 0 if kind == "fast" else rnd.choice([0, 1, 3]), "dstLen": dl, "spare": 0} for dl in range(0, 24) for kind in ("fast", "hc")])
     # (4a'') the same for the HC compressor, whose search visits only the positions of its skip schedule while it finds
     # nothing (si += 1 + (si - anchor) >> 7): literal runs of exactly 15 + 255 k bytes that it can actually emit before a match
     visited, r_ = [], 0
